@@ -12,6 +12,8 @@ type Variant struct {
 	Lang   string `json:"lang"` // "go" | "ts"
 	Unpack bool   `json:"unpack,omitempty"`
 	Object bool   `json:"object,omitempty"`
+	// Http: `generate go -d` (the web debugger build of the parser). Only generated (C14), never compiled or run.
+	Http bool `json:"http,omitempty"`
 }
 
 func (v Variant) String() string {
@@ -24,6 +26,9 @@ func (v Variant) String() string {
 	}
 	if v.Unpack {
 		s += "-u"
+	}
+	if v.Http {
+		s += "-d"
 	}
 	return s
 }
@@ -133,6 +138,15 @@ func (l *layouter) nl() string {
 	return "\n"
 }
 
+// codeStr writes an explicit token number; some layouts zero-pad it (a column-aligned table of numbers dictated by an
+// existing scanner): the number is decimal whatever its leading zeros.
+func (l *layouter) codeStr(c int) string {
+	if c > 0 && l.chance(1, 5) {
+		return fmt.Sprintf("%0*d", len(fmt.Sprint(c))+1+l.r.Intn(3), c)
+	}
+	return fmt.Sprint(c)
+}
+
 func (l *layouter) chance(num, den int) bool {
 	if l.r == nil {
 		return false
@@ -151,9 +165,18 @@ func Render(s *Spec, o RenderOpts) string {
 		if pkg == "" {
 			pkg = "main"
 		}
-		b.WriteString("%{\npackage " + pkg + "\n\nimport \"fmt\"\n%}\n")
+		extra := ""
+		if l.chance(1, 4) {
+			// the closing mark of the prologue glued to other text (in comments and in a string) is ordinary code
+			extra = "\n// the code between %{...%}, copied verbatim; e.g. {42%}.\nvar _ = \"{%d%%}\"\n"
+		}
+		b.WriteString("%{\npackage " + pkg + "\n\nimport \"fmt\"\n" + extra + "%}\n")
 	} else {
-		b.WriteString("%{\n// typescript prologue\n%}\n")
+		extra := ""
+		if l.chance(1, 4) {
+			extra = "// the code between %{...%}, copied verbatim; e.g. {42%}.\nvar _unused = \"{%d%%}\"\n"
+		}
+		b.WriteString("%{\n// typescript prologue\n" + extra + "%}\n")
 	}
 	// ---- union
 	if len(s.Fields) > 0 && l.chance(1, 4) {
@@ -205,7 +228,9 @@ func Render(s *Spec, o RenderOpts) string {
 			}
 			d += l.ws() + t.Key()
 			if t.Code != 0 && t.Name != "" && !t.Redecl {
-				d += l.ws() + fmt.Sprint(t.Code)
+				d += l.ws() + l.codeStr(t.Code)
+			} else if t.Name != "" && !t.Redecl && t.Alias != "" {
+				d += l.ws() + fmt.Sprintf("%q", t.Alias)
 			} else if t.Name != "" && !t.Redecl && l.chance(1, 6) {
 				// a string alias, as in `%token ID "identifier"` (documented in Parser.go); purely decorative
 				aliases := []string{`"alias of ` + t.Name + `"`, `"\n"`, `"a\tb"`, `"say \"` + t.Name + `\""`, `"back\\slash"`, `"<="`}
@@ -221,7 +246,7 @@ func Render(s *Spec, o RenderOpts) string {
 				blocks = append(blocks, block{first, -1})
 				d = "%token" + l.ws() + t.Key()
 				if t.Code != 0 {
-					d += l.ws() + fmt.Sprint(t.Code)
+					d += l.ws() + l.codeStr(t.Code)
 				}
 			}
 			blocks = append(blocks, block{d, -1})
@@ -247,8 +272,25 @@ func Render(s *Spec, o RenderOpts) string {
 			lastTypeTag = nt.Tag
 		}
 	}
+	usedInRhs := map[int]bool{}
+	for _, t := range s.UsedTerms() {
+		usedInRhs[t] = true
+	}
 	for li, lv := range s.Levels {
 		d := []string{"%left", "%right", "%nonassoc"}[lv.Assoc]
+		if l.chance(1, 2) {
+			// a level of pseudo-tokens (named by %prec only, never part of a right-hand side, so never a lookahead):
+			// its associativity can never be consulted and the manual's fourth keyword says the same thing
+			pseudo := true
+			for _, t := range lv.Terms {
+				if usedInRhs[t] {
+					pseudo = false
+				}
+			}
+			if pseudo {
+				d = "%precedence"
+			}
+		}
 		// a tag on the precedence line declares the tag for tokens first declared here
 		tag := ""
 		for _, t := range lv.Terms {
